@@ -1,8 +1,9 @@
 """C14 — a standby promotes itself only after sustained partner failure."""
 import verif as V
+import locks
 
 PROP = "C14"
-SPEC = "Bng.Spec.C14"
+SPEC = ["Bng.Spec.C14"] + ["Bng.Spec.C14Locks"]
 MON = ["early-promotion", "not-cancelled", "role-before-callback", "completed-events", "failback-unhealthy", "stuck",
        "dual-active", "stranded"]
 COMPS = [
@@ -34,11 +35,12 @@ ASSUME = [
     "the goroutine started by ForceFailover enters executeFailover before anything else happens (nothing can "
     "interleave observably: every other entry point ignores or refuses while the state is in_progress)",
 ]
+ASSUME = ASSUME + [locks.ASSUME]
 
 
 def run(tier, seed):
-    return V.standard_check(PROP, SPEC, COMPS, LEVEL, ASSUME, tier, seed)
+    return V.standard_check(PROP, SPEC, COMPS, LEVEL, ASSUME, tier, seed, pre=locks.with_locks())
 
 
 def replay(path):
-    return V.replay(PROP, COMPS, path, SPEC)
+    return V.replay(PROP, COMPS, path, SPEC, pre=locks.with_locks())
